@@ -52,8 +52,8 @@ def run_case(case):
     modes = [False]
     src = kind
     if kind == 'small-strict':
-        sig, conds, _ = gen.gen_base(rng, 'strong')
-        qs = gen.gen_queries(rng, sig, conds, 10)
+        sig, conds, _ = gen.gen_base(rng, 'strong', family=rng.choice([None, None, 'multiex', 'conjcons', 'indep']))
+        qs = gen.gen_queries(rng, sig, conds, 10, p_tie=0.35)
         mk = lambda: impl.mk_bb(sig, conds)
     elif kind == 'small-ext':
         sig, conds, _ = gen.gen_base(rng, 'weak_or_strong')
